@@ -97,6 +97,8 @@ def eval_guard(test: ast.AST, binding) -> bool:
             return {'int': int, 'float': float, 'str': str, 'bool': bool, 'list': list, 'tuple': tuple}[n.id]
         if isinstance(n, ast.UnaryOp) and isinstance(n.op, ast.USub):
             return -val(n.operand)
+        if isinstance(n, ast.Call) and isinstance(n.func, ast.Name) and n.func.id == 'type' and len(n.args) == 1:
+            return type(val(n.args[0]))
         raise NotEvaluable(t)
 
     def ev(n):
@@ -145,6 +147,56 @@ def guard_rejects(test: ast.AST, names, bad, good) -> bool:
                 raise
         for v in good:
             if eval_guard(test, lambda t, v=v: v if t in names else (_ for _ in ()).throw(KeyError(t))):
+                return False
+        return True
+    except NotEvaluable:
+        return False
+
+
+def guards_reject(tests, names, bad, good) -> bool:
+    """a sequence of raise-guards (evaluated in order, the first true one raises) rejects every value in `bad` and lets every value in `good` pass"""
+    def bind(v):
+        return lambda t: v if t in names else (_ for _ in ()).throw(KeyError(t))
+    try:
+        for v in bad:
+            hit = False
+            for t in tests:
+                try:
+                    if eval_guard(t, bind(v)):
+                        hit = True
+                        break
+                except NotEvaluable as e:
+                    if 'incomparable' in str(e):
+                        hit = True          # the guard itself raises TypeError for this value
+                        break
+                    raise
+            if not hit:
+                return False
+        for v in good:
+            for t in tests:
+                if eval_guard(t, bind(v)):
+                    return False
+        return True
+    except NotEvaluable:
+        return False
+
+
+def range_guard_ok(test, edges, accept: bool) -> bool:
+    """`test` decides 0 <= idx < len(self.<edges>): as an acceptance test (assert / continue-if-true, accept=True) it holds exactly for the valid
+    indices; as a rejection test (raise-if-true, accept=False) exactly for the invalid ones.  Evaluated for a list of 3 edges, whatever the spelling."""
+    n = 3
+    def bind(v):
+        def b(t):
+            if t.replace(' ', '') == f'len(self.{edges})':
+                return n
+            if t.isidentifier() and t not in ('int', 'float', 'str', 'bool', 'type', 'self', 'None', 'True', 'False'):
+                return v
+            raise KeyError(t)
+        return b
+    try:
+        for v, valid in ((0, True), (n - 1, True), (-1, False), (n, False), (n + 5, False)):
+            got = eval_guard(test, bind(v))
+            if got != (valid if accept else not valid):
                 return False
         return True
     except NotEvaluable:
